@@ -26,7 +26,8 @@ RULE = (
     "every header (D, size, spacing, origin, direction) of the listed product - all 8 / 48 signed permutation "
     "matrices and the generic rotations of the seed's table - through every construction route, compared with "
     "SimpleITK's own index<->physical maps on the complete continuous-index lattice; header -> Grid -> header "
-    "chains of 3 rounds; argument-aliasing histories (second grid from the same argument objects); and all "
+    "chains of 3 rounds; layout (point tensors of index<->world and the header's direction matrix as transposed / "
+    "step-sliced / stride-0 expanded views, one size per header class); argument-aliasing histories (second grid from the same argument objects); and all "
     "histories construct(origin= | center= | from_sitk) -> (query, setter){1,2} on ONE live Grid over the setter "
     "alphabet {spacing, direction, origin, center, align_corners} x {in-place, copying} + clone and the query "
     "alphabet {none, affine, inverse_affine, origin, index_to_world, ...}, every view (origin, center, affine, "
@@ -43,7 +44,7 @@ ASSUMPTIONS = [
 ]
 MIN_NONTRIVIAL = {"quick": 400, "thorough": 2500}
 MIN_OUTCOMES = {"quick": 30000, "thorough": 190000}
-MIN_SUB_TRACES = {"construct-origin": 300, "construct-center": 300, "from_sitk": 300, "chain": 300, "file": 300, "gridattrs": 300, "aliasing": 300, "history": 7000}
+MIN_SUB_TRACES = {"construct-origin": 300, "construct-center": 300, "from_sitk": 300, "chain": 300, "file": 300, "gridattrs": 300, "aliasing": 300, "history": 7000, "layout": 150}
 
 
 # ---------------------------------------------------------------------------
@@ -148,6 +149,7 @@ def bounds(tier):
             "index_lattice_values_per_axis": len(index_values(5, tier)),
         }
     b["routes"] = list(SUBS)
+    b["layout"] = {"point_forms": ["transposed", "sliced", "expanded"], "direction_objects": ["torch32/transposed", "torch32/sliced", "torch64/transposed", "numpy64/fortran", "numpy64/sliced", "numpy32/sliced"], "menu": "headers with first size 5 and the large almost-aligned images"}
     b["history"] = {"routes": list(H_ROUTES), "queries": list(H_QUERIES[tier]), "setters": list(H_SETTERS), "depth_query_setter_pairs": H_DEPTH,
                     "directions": {"D2": len(history_dirs(2, tier, 0)), "D3": len(history_dirs(3, tier, 0))}, "queries_second_pair": list(H_QUERIES2[tier]),
                     "histories_per_route_and_direction": (len(H_QUERIES[tier]) * len(H_SETTERS)) * (1 + len(H_QUERIES2[tier]) * len(H_SETTERS))}
@@ -699,7 +701,101 @@ def sub_aliasing(sink: Sink, cx: Ctx):
     sink.trace(sub, depth=3)
 
 
-SUBS = ("construct-origin", "construct-center", "from_sitk", "chain", "file", "gridattrs", "aliasing")
+def sub_layout(sink: Sink, cx: Ctx):
+    """Memory layout: index / world point tensors of the index<->world maps, and the direction matrix of a
+    header, given as transposed / step-sliced / stride-0 expanded (points) views: no exception, result equal to
+    the contiguous form (and to ITK), arguments unchanged (bits and _version)."""
+    from deepali.core.grid import Axes, Grid
+
+    from ref.layout import applicable, relayout
+
+    sub = "layout"
+    cfg = cx.cfg
+    case = cx.case(sub)
+    D = cx.D
+    sink.trans()
+    st, g = guarded(lambda: Grid(origin=tuple(cfg["origin"]), **grid_kwargs(cfg)))
+    if st == "raises":
+        sink.undef("layout: construction fails (reported by construct-origin)")
+        return
+    k = min(len(cx.idx), 6)
+    calls = (
+        ("index_to_world", lambda t: g.index_to_world(t), cx.idx[:k], cx.pts[:k], cx.tol_w),
+        ("world_to_index", lambda t: g.world_to_index(t), cx.pts[:k], cx.idx_back[:k], cx.tol_i + 0.5e-6 + fr.lin_norm(cx.ref, WORLD, cx.ref, GRID) * EPS32 * float(np.abs(cx.pts).max())),
+        ("transform_points(grid->world)", lambda t: g.transform_points(t, Axes.GRID, Axes.WORLD), cx.idx[:k], cx.pts[:k], cx.tol_w),
+        ("transform_vectors(grid->world)", lambda t: g.transform_vectors(t, Axes.GRID, Axes.WORLD), cx.idx[:k], None, cx.tol_w),
+    )
+    for name, fn, x64, itk, tol, shp in [c + (sh,) for c in calls for sh in ("MD", "23D")]:
+        if shp == "23D" and len(x64) < 6:
+            continue
+        x = torch.tensor(x64, dtype=torch.float32)
+        if shp == "23D":
+            x = x.reshape(2, 3, D)
+            itk = None if itk is None else np.asarray(itk).reshape(2, 3, D)
+        sink.trans()
+        st, ref = guarded(fn, relayout(x, "contig"))
+        if st == "raises" or not isinstance(ref, torch.Tensor):
+            sink.undef("layout: contiguous form fails (reported by the other sub-checks)")
+            continue
+        for form in ("transposed", "sliced", "expanded"):
+            if not applicable(x, form):
+                continue
+            xv = relayout(x, form, n=2)
+            exp = ref
+            if form == "expanded":
+                sink.trans()
+                st, exp = guarded(fn, relayout(x, "repeat", n=2))
+                if st == "raises" or not isinstance(exp, torch.Tensor):
+                    sink.undef("layout: batched contiguous form not accepted by this call")
+                    continue
+            before, ver = tensor_bytes(xv), xv._version
+            sink.trans()
+            st, got = guarded(fn, xv)
+            sig = f"C02/{sub}/{name}/shape={shp}/layout={form}/"
+            sink.outcome(cx.key, sub, name, shp, form, tensor_bytes(got) if st == "ok" and isinstance(got, torch.Tensor) else repr(type(got)))
+            if st == "raises":
+                sink.violation(sig + "raises=" + type(got).__name__ + cx.suffix, case, f"{name} with a {form} point tensor: {exc_text(got)}", size=1)
+                continue
+            bad = cmp(got, as_np(exp), tol)
+            if bad is None and itk is not None and form != "expanded":
+                bad = cmp(got, itk, tol)
+            if bad:
+                sink.violation(sig + bad[0] + cx.suffix, case, f"{name} with a {form} point tensor differs from the contiguous form / ITK: {bad[1]}", size=1)
+            if tensor_bytes(xv) != before or xv._version != ver:
+                sink.violation(sig + "operand-mutated" + cx.suffix, case, f"{name}: the {form} argument tensor was modified (bits or _version)", size=1)
+    # direction matrix of a header as a non-contiguous object
+    R = np.asarray(cfg["direction"], dtype=np.float64)
+    big = np.full((2 * D, 2 * D), 7.0)
+    big[::2, ::2] = R
+    objs = (
+        ("torch32/transposed", lambda: relayout(torch.tensor(R, dtype=torch.float32), "transposed")),
+        ("torch32/sliced", lambda: relayout(torch.tensor(R, dtype=torch.float32), "sliced")),
+        ("torch64/transposed", lambda: relayout(torch.tensor(R), "transposed")),
+        ("numpy64/fortran", lambda: np.asfortranarray(R)),
+        ("numpy64/sliced", lambda: big[::2, ::2]),
+        ("numpy32/sliced", lambda: big.astype(np.float32)[::2, ::2]),
+    )
+    for kind, mk in objs:
+        for route in ("origin", "center"):
+            arg = mk()
+            before = fingerprint(arg)
+            ver = arg._version if isinstance(arg, torch.Tensor) else None
+            kw = dict(size=tuple(cfg["size"]), spacing=tuple(cfg["spacing"]), direction=arg)
+            kw[route] = tuple(cfg["origin"]) if route == "origin" else tuple(cx.center.tolist())
+            sink.trans()
+            st, g2 = guarded(lambda: Grid(**kw))
+            tag = f"Grid({route}=,direction=<{kind}>)"
+            if st == "raises":
+                sink.violation(f"C02/{sub}/{tag}/layout={kind.split('/')[1]}/raises={type(g2).__name__}{cx.suffix}", case, f"{tag}: {exc_text(g2)}", size=1)
+                continue
+            check_grid_maps(sink, cx, f"{sub}/{tag}/layout={kind.split('/')[1]}", g2, tag, full=False, case_sub=sub)
+            if fingerprint(arg) != before or (ver is not None and arg._version != ver):
+                sink.violation(f"C02/{sub}/{tag}/layout={kind.split('/')[1]}/operand-mutated{cx.suffix}", case, f"{tag}: the direction argument was modified", size=1)
+    sink.state(cx.key, sub)
+    sink.trace(sub)
+
+
+SUBS = ("construct-origin", "construct-center", "from_sitk", "chain", "file", "gridattrs", "aliasing", "layout")
 
 
 # ---------------------------------------------------------------------------
@@ -974,6 +1070,10 @@ def run_config(sink: Sink, cfg, tmpdir: str, only: str = None):
             sub_gridattrs(sink, cx)
         elif sub == "aliasing":
             sub_aliasing(sink, cx)
+        elif sub == "layout":
+            # reduced menu: one size per (spacing, origin, direction) and the large almost-aligned images
+            if cfg["size"][0] in (5, 512, 400):
+                sub_layout(sink, cx)
     if only is None and (not np.allclose(R, np.eye(cx.D)) or np.abs(np.asarray(cfg["origin"])).max() > 0):
         sink.nontriv(cx.key)
 
